@@ -108,7 +108,8 @@ def expect(s, encoded):
                     else:
                         e["kind"] = "raise"
                         e["why"] = "bad IPvFuture"
-            elif ":" not in host:
+            elif ":" not in host.partition("%")[0]:
+                # only the address part decides: a ':' inside the zone id does not make it an IPv6 literal (D35)
                 e["kind"] = "raise"
                 e["why"] = "bracketed non-IPv6"
         if hostm.netloc_nfkc_hostile(authority):
